@@ -36,6 +36,9 @@ type ttlCtx struct {
 
 func runC05(c *Ctx) {
 	const rel = "cache"
+	// the per-call option object is the call's own (a recycled one carries an earlier call's keep-ttl, ttl or
+	// one-shot flag into this one)
+	c.checkOptionTargets("C05.options", rel)
 	x := &ttlCtx{c: c}
 	x.size = c.mustField(rel, "ttlMemCache", "size")
 	x.ttl = c.mustField(rel, "ttlMemCache", "ttl")
